@@ -60,6 +60,12 @@ fn lookups_lg16() -> (Vec<BAir>, Vec<usize>) {
         vec![16, 16],
     )
 }
+/// Two one-row instances (trace LDE is a constant polynomial, opened at `zeta` and `zeta*g`) next
+/// to a 16-row one: their next-row claims are read by no constraint, so only the FRI arithmetic
+/// (the "constant polynomial" branch of `open_input`) ties them to the commitment.
+fn one_row_instances() -> (Vec<BAir>, Vec<usize>) {
+    (vec![BAir::Mul { degree: 2, rows: 16, reps: 3 }, BAir::Sub { rows: 1 }, BAir::Add], vec![16, 1, 1])
+}
 fn add_zk() -> (Vec<BAir>, Vec<usize>) {
     // zk_aggregation.rs / fibonacci_batch_stark_prover_zk.rs: AddAir
     (vec![BAir::Add], vec![16])
@@ -103,6 +109,7 @@ const QUICK: &[&str] = &[
     "babybear_d4_p2w16/batch/fri/lookups_local_global/fri_b1_a2_f1",
     "babybear_d4_p2w16/batch/fri/circuit_tables_arith10_d1/fri_testing",
     "babybear_d4_p2w16/batch/fri/prep_shorter_than_main/fri_testing",
+    "babybear_d4_p2w16/batch/fri/one_row_instances/fri_testing",
     "babybear_d4_p2w16/uni/hiding_fri/fib8/fri_testing",
     "babybear_d4_p2w16/batch/hiding_fri/lookups_local_global/fri_testing",
     "koalabear_d4_p2w16/uni/fri/mul_prep/fri_testing",
@@ -165,6 +172,8 @@ pub fn catalogue() -> Vec<FixtureSpec> {
     ct!(v, bb_ct, bb, 1, 10, false, t.clone());
     // known finding: input-batch MMCS path depth taken from the global height
     batch!(v, bb, false, prep_shorter_than_main(), "prep_shorter_than_main", t.clone());
+    batch!(v, bb, false, one_row_instances(), "one_row_instances", t.clone());
+    batch!(v, bb, false, one_row_instances(), "one_row_instances", c1.clone());
     // known finding: uni-STARK circuit does not observe the FRI-level random openings
     uni!(v, bb_zk, false, UAir::Fib, "fib8", 8, t.clone());
     zk_family!(bb_zk);
